@@ -211,6 +211,9 @@ def check_parse_sql(ctx):
     args = [a.arg for a in fn.args.args]
     ctx.need(len(args) >= 1, 'parse_sql has no parameter')
     sqlvar = args[0]
+    mod_funcs = {n.name: n for n in tree.body if isinstance(n, ast.FunctionDef)}
+    mod_consts = {n.targets[0].id: n.value for n in tree.body if isinstance(n, ast.Assign) and len(n.targets) == 1 and isinstance(n.targets[0], ast.Name)}
+    inlining = set()
     # state: dict var -> tag ; tags: 'sql', 'tokens', 'result?', 'result', 'none', other
     def expr_tag(e, st):
         if isinstance(e, ast.Name):
@@ -224,6 +227,28 @@ def check_parse_sql(ctx):
                 if t == 'tokens':
                     return 'result?'
                 return 'result-of-other-tokens?'
+            # a one-expression module helper (`def _prepare_text(sql): return <expr>`) is read as its expression
+            if isinstance(f, ast.Name) and f.id in mod_funcs and not e.keywords:
+                callee = mod_funcs[f.id]
+                body_ = [x for x in callee.body if not (isinstance(x, ast.Expr) and isinstance(x.value, ast.Constant))]
+                if len(body_) == 1 and isinstance(body_[0], ast.Return) and body_[0].value is not None and len(callee.args.args) == len(e.args) and id(callee) not in inlining:
+                    inlining.add(id(callee))
+                    try:
+                        return expr_tag(body_[0].value, {a.arg: expr_tag(v, st) for a, v in zip(callee.args.args, e.args)})
+                    finally:
+                        inlining.discard(id(callee))
+            # <compiled pattern>.sub(rep, text) with the pattern compiled once at module level
+            if isinstance(f, ast.Attribute) and f.attr == 'sub' and len(e.args) == 2 and isinstance(f.value, ast.Name) and f.value.id in mod_consts \
+                    and expr_tag(e.args[1], st) == 'sql':
+                cv = mod_consts[f.value.id]
+                if isinstance(cv, ast.Call) and dotted(cv.func) == 're.compile' and cv.args:
+                    pat, rep = const_str(cv.args[0]), const_str(e.args[0])
+                    ok = pat is not None and rep == '' and _strip_pattern_ok(pat) and len(cv.args) == 1 and not cv.keywords
+                    ctx.ob('C05.strip-is-outside-tokens', f're.sub({pat!r}, {rep!r})', ok,
+                           f'parse_sql edits the text before lexing with re.compile({pat!r}).sub({rep!r}, ...): only an anchored suffix of '
+                           f'whitespace/semicolons may be removed', file=file, line=e.lineno, witness='select 1 ; x')
+                    ctx.count('pre_lex_edits')
+                    return 'sql'
             if dotted(f) == 're.sub' and len(e.args) == 3 and expr_tag(e.args[2], st) == 'sql':
                 pat, rep = const_str(e.args[0]), const_str(e.args[1])
                 ok = pat is not None and rep == '' and _strip_pattern_ok(pat)
